@@ -56,7 +56,9 @@ def r18_1(ctx):
             want = ("dot", ("D", degree - i), want)
         # the function post-processes the product into nested tuples; compare the product captured by the hook
         prod = _last_product(ctx, fn, degree, times)
-        if prod != want:
+        if isinstance(prod, tuple) and prod and prod[0] == "ERR":
+            out.undecided(fn.qname, f"degree {degree}, times {times}: not interpretable: {prod[1]}", where=fn.where())
+        elif prod != want:
             out.bad(fn.qname, "derivative matrices are not composed in order of decreasing degree", where=fn.where(),
                     detail=f"degree {degree}, times {times}: product {prod}, required {want}")
         else:
@@ -256,6 +258,9 @@ class Sym(StandIn):
     def __neg__(self):
         from verifkit import poly
         return Sym(poly.neg(self.p))
+
+    def __float__(self):
+        return 0.0
 
     def __eq__(self, o):
         return isinstance(o, (Sym, int, Fr)) and self.p == Sym.lift(o).p
